@@ -50,6 +50,15 @@ func (r *AmqpReader) readFrame() (frame frame, err error) {
 		return
 	}
 
+	if string(scratch[:4]) == "AMQP" {
+		// The 8-octet protocol header ("AMQP" 0 0 9 1) that opens the client
+		// half of every connection is not a frame: take its last octet too.
+		if _, err = io.ReadFull(r.R, scratch[:1]); err != nil {
+			return
+		}
+		return &protocolHeader{}, nil
+	}
+
 	typ := scratch[0]
 	channel := binary.BigEndian.Uint16(scratch[1:3])
 	size := binary.BigEndian.Uint32(scratch[3:7])
@@ -93,6 +102,10 @@ func (r *AmqpReader) readFrame() (frame frame, err error) {
 
 	return
 }
+
+// protocolHeader is what readFrame returns for the protocol header; Dissect
+// has nothing to report for it.
+type protocolHeader struct{}
 
 func readShortStr(r io.Reader) (v string, err error) {
 	var length uint8
